@@ -90,13 +90,15 @@ theorem defenseBody_new (fac : Factory) (s : H) (all : List (String × String)) 
     defenseBody fac s.afresh (defsJ all) (PyJ.str d.1) (newAssetObj s o) =
       if (MS.defensesOf fac.L o.type).any (·.1 = d.1) && fac.floatOk d.2 then
         .ok (.yield (newAssetObj s { o with defenses := o.defenses ++ [d] }))
-      else .error .validation := by
+      else .error (if (MS.defensesOf fac.L o.type).any (·.1 = d.1) then .validation else .unmodelled) := by
   unfold defenseBody defsJ jIndex
   simp only [jKey, lookup_defs all hall d hd, jFloat, bind, Except.bind, pjsSetDefense, newAssetObj_a,
     dictSet_fresh _ _ _ hfr, newAssetObj_setA]
-  by_cases hc : ((MS.defensesOf fac.L o.type).any (·.1 = d.1) && fac.floatOk d.2) = true
-  · simp only [hc, if_true]; rfl
-  · simp only [hc]; rfl
+  by_cases h1 : (MS.defensesOf fac.L o.type).any (·.1 = d.1) = true
+  · by_cases h2 : fac.floatOk d.2 = true
+    · simp only [h1, h2, if_true, Bool.and_self]; rfl
+    · simp only [h1, h2, if_true, Bool.and_false]; rfl
+  · simp only [h1, Bool.false_and]; rfl
 
 /-- the pjs guard of one defense assignment -/
 def defGuard (fac : Factory) (ty : String) (d : String × String) : Bool :=
